@@ -1066,16 +1066,29 @@ def collect(info, mods: dict, repo: pathlib.Path):
             for f, w in by_cls.get((base.__module__, base.__name__), []):
                 info.engine_model_fields.append((m, c, f, w))
     # ---- every str_to_class call site ----------------------------------------------------------------------------------
+    # A private helper that hands its own parameters straight to `str_to_class` is transparent: the sites are the calls of
+    # the helper (what matters is which (module, name) strings reach `str_to_class`, not the function they travel through).
+    from .c20 import resolver_helpers
+
     for p in all_src:
         rel = str(p.relative_to(repo))
         if "str_to_class(" not in all_src[p]:
             continue
+        try:
+            helpers = resolver_helpers(_module_ast(str(p)))
+        except SyntaxError:
+            helpers = {}
         for lo, hi, name, cls, f in fn_index.get(rel, []):
+            if cls is None and name in helpers:
+                continue
             for n in ast.walk(f):
-                if isinstance(n, ast.Call) and ast.unparse(n.func).split(".")[-1] == "str_to_class" and len(n.args) >= 1:
-                    inner = enclosing(rel, n.lineno)
-                    if inner and inner[2] == name:
-                        info.str_to_class_sites.append((rel, name, ast.unparse(n.args[0])[:60], (rel, name) in MODELLED_STR_TO_CLASS))
+                if isinstance(n, ast.Call) and len(n.args) >= 1:
+                    cname = ast.unparse(n.func).split(".")[-1]
+                    if cname == "str_to_class" or (isinstance(n.func, ast.Name) and cname in helpers):
+                        inner = enclosing(rel, n.lineno)
+                        if inner and inner[2] == name:
+                            info.str_to_class_sites.append((rel, name, ast.unparse(n.args[0])[:60],
+                                                            (rel, name) in MODELLED_STR_TO_CLASS))
     info.str_to_class_sites = sorted(set(info.str_to_class_sites))
     # ---- interpolation / Hydra-style `defaults` lists in the shipped files ------------------------------------------------
     def walk_vals(v, where, rel):
